@@ -198,7 +198,20 @@ func serializeFloat(buf *bytes.Buffer, s string) {
 }
 
 func serializeDatetime(buf *bytes.Buffer, t time.Time) {
-	serializeDatetimeFromUnixNano(buf, t.UnixNano())
+	serializeDatetimeFromUnix(buf, t.Unix(), t.UnixNano())
+}
+
+// serializeDatetimeFromUnix writes the nanoseconds since 1970 where they fit into 64 bits, and the seconds
+// followed by the nanoseconds of the second otherwise (times before 1678 or after 2262).
+func serializeDatetimeFromUnix(buf *bytes.Buffer, sec int64, nano int64) {
+	if -9223372036 < sec && sec < 9223372036 {
+		serializeDatetimeFromUnixNano(buf, nano)
+		return
+	}
+	buf.Write([]byte{91, 68, 93})
+	buf.WriteString(value.Int64ToStr(sec))
+	buf.WriteByte(46)
+	buf.WriteString(value.Int64ToStr(nano - sec*1e9)) // exact: the arithmetic wraps around the same way
 }
 
 func serializeDatetimeFromUnixNano(buf *bytes.Buffer, t int64) {
